@@ -28,7 +28,7 @@ LEVELS = {
             "5/C17", "Coq theorems on a Gallina model + exact correspondence + oracle (partial)"),
     "C18": ("theorems over R for every selection: zero where nothing is selected, jointly linear in pressures and tensions, minus p times "
             "the identity for pure pressure; the dictionary key is injective up to 10 x 10 and collides at 12 x 12 (refutation = known "
-            "finding D10); the closed form of the principal stresses gives the roots of the characteristic polynomial; PrimFloat instance of the model compared with the implementation per grid cell, reported eigenvalues with the closed form; eigenvectors by residual",
+            "finding D10); the closed form of the principal stresses gives the roots of the characteristic polynomial; the grid (Model/StressGrid.v): a grid cell's tensor is the tensor of exactly the cells whose centre lies within the radius and of the interfaces touching them, zero where there is none, monotone in the radius, bins uniform and grid centres their mid-points - tied to the whole analysis (bins and centres bit for bit); PrimFloat instance of the model compared with the implementation per grid cell, reported eigenvalues with the closed form; eigenvectors by residual",
             "5/C18", "Coq theorems on a polymorphic model + correspondence + oracle"),
     "C14": ("token-level model of the dump parser; theorems: a face loop broken over any number of continuation lines is read back whole "
             "(for every list of faces and every wrapping), negative references contribute the edge's second vertex, vertices of no face "
